@@ -32,6 +32,7 @@
     * :meth:`_AdbPacketStore.find_allow_zeros`
     * :meth:`_AdbPacketStore.get`
     * :meth:`_AdbPacketStore.put`
+    * :meth:`_AdbPacketStore.stream_opened`
 
 * :class:`_AdbTransactionInfo`
 
@@ -257,11 +258,15 @@ class _AdbPacketStore(object):
         :meth:`adb_shell.adb_device_async._AdbIOManagerAsync._read_packet_from_device` methods.  The second (inner)
         dictionary keys are the ``arg0`` return values from those methods.  And the values of this inner dictionary are
         queues of ``(cmd, data)`` tuples.
+    _open_streams : set[tuple[int, int]]
+        The ``(arg0, arg1)`` pairs of the streams that were opened (see :meth:`_AdbPacketStore.stream_opened`) and whose ``CLSE`` packet has not
+        been retrieved or cleared yet
 
     """
 
     def __init__(self):
         self._dict = {}
+        self._open_streams = set()
 
     def __contains__(self, value):
         """Check if there are any entries in a queue for the specified value.
@@ -303,6 +308,9 @@ class _AdbPacketStore(object):
             The ``arg1`` return value from the :meth:`adb_shell.adb_device._AdbIOManager._read_packet_from_device` and :meth:`adb_shell.adb_device_async._AdbIOManagerAsync._read_packet_from_device` methods
 
         """
+        # The stream is finished, so any further `CLSE` packets for it are duplicates
+        self._open_streams.discard((arg0, arg1))
+
         if arg1 in self._dict and arg0 in self._dict[arg1]:
             del self._dict[arg1][arg0]
 
@@ -313,6 +321,7 @@ class _AdbPacketStore(object):
     def clear_all(self):
         """Clear all the entries."""
         self._dict = {}
+        self._open_streams = set()
 
     def find(self, arg0, arg1):
         """Find the entry corresponding to ``arg0`` and ``arg1``.
@@ -412,10 +421,26 @@ class _AdbPacketStore(object):
 
         return cmd, arg0, arg1, data
 
+    def stream_opened(self, arg0, arg1):
+        """Register a stream that has just been opened, so that the ``CLSE`` packet that ends it will not be treated as a duplicate by :meth:`_AdbPacketStore.put`.
+
+        Parameters
+        ----------
+        arg0 : int
+            The ``arg0`` value of the ``OKAY`` packet with which the device acknowledged the ``OPEN`` packet (i.e., the remote ID of the stream)
+        arg1 : int
+            The ``arg1`` value of that ``OKAY`` packet (i.e., the local ID of the stream)
+
+        """
+        self._open_streams.add((arg0, arg1))
+
     def put(self, arg0, arg1, cmd, data):
         """Add an entry to the queue for ``arg0`` and ``arg1``.
 
-        Note that a new dictionary entry will not be created if ``cmd == constants.CLSE``.
+        Note that a new dictionary entry will not be created if ``cmd == constants.CLSE``, unless ``(arg0, arg1)`` is a stream that was
+        registered via :meth:`_AdbPacketStore.stream_opened` and has not been closed yet.  (Devices may send duplicate ``CLSE`` packets for
+        streams that are already closed, and those must not linger in the store.  But the ``CLSE`` that ends a stream which is still open
+        must reach the owner of that stream, whichever stream's reader happens to read it off the transport.)
 
         Parameters
         ----------
@@ -431,13 +456,13 @@ class _AdbPacketStore(object):
         """
         if arg1 in self._dict:
             if arg0 not in self._dict[arg1]:
-                if cmd == constants.CLSE:
+                if cmd == constants.CLSE and (arg0, arg1) not in self._open_streams:
                     return
 
                 # Create the `arg0` entry in the `arg1` dict
                 self._dict[arg1][arg0] = Queue()
         else:
-            if cmd == constants.CLSE:
+            if cmd == constants.CLSE and (arg0, arg1) not in self._open_streams:
                 return
 
             # Create the `arg1` entry with a new dict
